@@ -8,3 +8,11 @@ def run(chk):
     ex = explore("step")
     handler_preamble(chk, ex, ["operation.step.StepOperationExecutor.check_result_status", "operation.step.StepOperationExecutor.execute", "operation.step.StepOperationExecutor.retry_handler"])
     hobl.c12_step(chk, ex)
+    from . import strategies
+    chk.assume("A: floats are reals; rate ** k is an uninterpreted power with rate >= 1, k >= 0 => power >= 1; random.random() in [0, 1)")
+    strategies.strategy_contract(chk, "C12", "retry")
+    strategies.presets(chk, "C12")
+    import z3
+    n, m = z3.Int("attempt"), z3.Int("max_attempts")
+    chk.prove("C12.lemma.retry_count", [n >= 1, z3.Not(n >= m)], n <= m - 1,
+              desc="from C12.strategy.cutoff, C12.step.attempt_arg and B1 (attempt n is consulted with n): a RETRY is recorded only for attempt numbers n <= max_attempts - 1, so at most max_attempts - 1 retries and min(failures + 1, max_attempts) runs")
